@@ -26,7 +26,8 @@ Sections:
                     features.push('\\n'); for key in order { if let Some(t) = fs.get(&key) { features.push_str(t); } } }
                                                                         -> (key of B, "features", .newlineThenBlocks),
                                                                            (key of C, "features", .blockOrder)
-              featureFallbackOrder = "sorted" | "mapOrder";  featuresNoneWhenEmpty from the final `if features.is_empty()`
+              featureFallbackOrder = "sorted" (`keys.sort()`, or plain iteration of a `BTreeMap`) | "mapOrder" (plain
+              iteration of a `HashMap`; a map of another type is an unknown shape);  featuresNoneWhenEmpty from the final `if features.is_empty()`
   removed     the `lib.remove("..")` statements, in order
 """
 import os
@@ -142,7 +143,14 @@ def parse(repo):
             fb = re.match(fs + r"\.keys\(\)\.cloned\(\)\.collect(?:::<Vec<String>>)?\(\)\};", s)
             if not fb:
                 raise NotFound("fallback order: " + s[:50])
-            P.fallback = "mapOrder"
+            # plain iteration of the block map: sorted iff the map is an ordered one
+            mtype = {m: t for _, m, t in P.lib}[m.group(2)]
+            if re.match(r"(?:std::collections::)?BTreeMap<", mtype):
+                P.fallback = "sorted"
+            elif re.match(r"(?:std::collections::)?HashMap<", mtype):
+                P.fallback = "mapOrder"
+            else:
+                raise NotFound("block map of unknown type " + mtype)
         s = s[fb.end():]
         eat(r"features\.push\('\\n'\);for(\w+)inorder\{ifletSome\((\w+)\)=" + fs + r"\.get\(&\1\)\{features\.push_str\(\2\);\}\}\}",
             "feature loop")
